@@ -23,6 +23,7 @@ mod credit;
 mod e2e;
 mod failprop;
 mod frame;
+mod held;
 mod hostile;
 mod ids;
 mod life;
@@ -45,6 +46,10 @@ fn main() {
     if args.len() < 2 {
         eprintln!("usage: vharness <module> [--tier T] [--seed N] [--report F] [--replay F]");
         std::process::exit(64);
+    }
+    if args[1] == "nesting-probe" && args.len() == 4 {
+        codec::nesting_probe_child(&args[2], args[3].parse().expect("levels"));
+        return;
     }
     let mut opts = Opts {
         tier: std::env::var("VERIF_TIER").unwrap_or_else(|_| "quick".into()),
@@ -103,6 +108,7 @@ fn main() {
         "sessionwire" => sessionwire::main(&opts),
         "life" => life::main(&opts),
         "typed" => typed::main(&opts),
+        "held" => held::main(&opts),
         "probe-to-value" => typed::probe_to_value(&opts),
         other => {
             eprintln!("unknown module {}", other);
